@@ -135,6 +135,31 @@ def reference(st_, name, kw):
     return st_.ref[key]
 
 
+def natural_scale(st_, name):
+    """size of the terms a function adds up (a result that is pure cancellation noise, e.g. chi of two identical species, must not
+    be compared relative to itself)"""
+    key = 'scale:' + name
+    if key not in st_.ref:
+        fr = st_.fresh
+        c3 = float(np.max(np.abs(common_space(fr, 'directCorr')[:3])))
+        if name == 'chi':
+            d = [fr.sys.diameter[t] for t in st_.types]
+            rfac = (max(d) / min(d)) ** 3
+            v = float(fr.sys.density.total) * c3 * rfac
+        elif name == 'spinodal_condition':
+            v = 1.0
+        elif name == 'second_virial':
+            P = target()
+            h = np.array(fr.totalCorr.data)
+            hk = h if fr.totalCorr.space == P.Space.Fourier else np.stack([[fr.sys.domain.to_fourier(h[:, i, j])[:3] for j in range(h.shape[2])]
+                                                                            for i in range(h.shape[1])])
+            v = 0.5 * float(np.max(np.abs(hk[..., :3] if fr.totalCorr.space != P.Space.Fourier else hk[:3])))
+        else:
+            v = 0.0
+        st_.ref[key] = v
+    return st_.ref[key]
+
+
 def do_call(st_, name, kw, out, sig):
     P = target()
     ref = reference(st_, name, kw)
@@ -152,6 +177,7 @@ def do_call(st_, name, kw, out, sig):
         mask = g > 1e-3
     else:
         mask = None
+    floor = natural_scale(st_, name)
     for k, r in ref.items():
         if k not in got or got[k].shape != r.shape:
             out.fail(sig + name + '/result-shape', '%s(%s): entry %s missing or of different shape than on a fresh object' % (name, kw, k))
@@ -160,7 +186,7 @@ def do_call(st_, name, kw, out, sig):
         m = np.ones(b.shape, dtype=bool) if mask is None else mask
         with np.errstate(all='ignore'):
             fin = np.isfinite(b) & m
-            scale = float(np.max(np.abs(b[fin]))) + 1e-300 if np.any(fin) else 1.0
+            scale = max(float(np.max(np.abs(b[fin]))) if np.any(fin) else 0.0, floor) + 1e-300
             bad = fin & ~(np.abs(a - b) <= tol * scale)
         if np.any(bad):
             idx = tuple(int(v) for v in np.argwhere(bad)[0])
